@@ -1,18 +1,424 @@
-(* C15 — Events run their handlers in order, isolated, on shared globals (first instalment). *)
-From Coq Require Import List.
-From EvyV Require Import Base Ast Sem SemBasics.
+(* C15 — Events run their handlers in order, isolated, on shared globals.
+   Property theorems only; every proof is [exact <lemma of SemEvents>].
+
+   Reading guide.  [payload_vals ps args] says how binding the payload [args]
+   to the declared parameters [ps] ends (all bound / payload too short / a value
+   of the wrong kind) and which values were put into fresh cells;
+   [bind_frame ps ls fr] is the frame obtained by binding the parameters, in
+   order, to the cells [ls] ("_" binds nothing, a repeated name replaces);
+   [loc_seq p n] are the n consecutive fresh addresses from p;
+   [halloc_list h vs] is the heap after allocating vs one after the other. *)
+From Coq Require Import ZArith NArith PArith List String Bool Floats.
+From EvyV Require Import Base Num Ast Omap Sem SemEvents.
 Import ListNotations.
 
-(* an event is: bind the payload to the declared parameters in a fresh frame,
-   run the handler body over the SAME state (heap + globals); the handler's
-   environment is discarded, the state carries on to the next event *)
-Theorem C15_handle_event_unfold : forall n P name args s h,
-  find_handler name (p_handlers P) = Some h ->
-  handle_event n P name args s =
-  match (let* fr := bind_payload (h_params h) args [] in
-         let* _ := exec_block n P [fr] (h_body h) in ret tt) s with
-  | (Er e, s1) => (OErr e, s1)
-  | (Ok _, s1) => (ODone, s1)
+(* ---------------------------------------------------------------------- *)
+(* C1. one event                                                           *)
+(* ---------------------------------------------------------------------- *)
+
+(* COMPLETE.  Delivering an event: no handler -> host crash, state untouched;
+   otherwise the payload prefix is converted and allocated into fresh cells,
+   then the body is run EXACTLY ONCE by one [exec_block], in an environment
+   consisting of one frame that binds only the declared parameters, from the
+   incoming state (same globals, trace, ...) extended by those cells; the
+   signal and the final environment of the body are dropped. *)
+Theorem C15_handle_event_unfold : forall fuel P name args s,
+  handle_event fuel P name args s =
+  match find_handler name (p_handlers P) with
+  | None => (OErr err_no_handler, s)
+  | Some h =>
+      match payload_vals (h_params h) args with
+      | PvOk vs =>
+          event_outcome
+            (exec_block fuel P [bind_frame (h_params h) (loc_seq (hnext (st_heap s)) (List.length vs)) []]
+                        (h_body h) (upd_heap (halloc_list (st_heap s) vs) s))
+      | PvMissing vs => (OErr err_missing_payload, upd_heap (halloc_list (st_heap s) vs) s)
+      | PvMismatch vs => (OErr (EPanic PkAnyConversion), upd_heap (halloc_list (st_heap s) vs) s)
+      end
   end.
 Proof. exact handle_event_unfold. Qed.
 Print Assumptions C15_handle_event_unfold.
+
+(* COMPLETE.  bind_payload is exactly the pure description. *)
+Theorem C15_bind_payload_exact : forall ps args fr s,
+  bind_payload ps args fr s = bind_payload_result ps args fr s.
+Proof. exact bind_payload_exact. Qed.
+Print Assumptions C15_bind_payload_exact.
+
+(* COMPLETE.  What a successful binding leaves behind: one fresh cell per
+   declared parameter (also for "_"), at the consecutive addresses from hnext,
+   holding the payload prefix; globals, trace, yields and all old cells are
+   untouched. *)
+Theorem C15_bind_payload_ok : forall ps args fr s fr1 s1,
+  bind_payload ps args fr s = (Ok fr1, s1) ->
+  let vs := map hval_of_payload (firstn (List.length ps) args) in
+  let ls := loc_seq (hnext (st_heap s)) (List.length ps) in
+  payload_vals ps args = PvOk vs /\
+  fr1 = bind_frame ps ls fr /\
+  s1 = upd_heap (halloc_list (st_heap s) vs) s /\
+  st_globals s1 = st_globals s /\ st_trace s1 = st_trace s /\ st_yields s1 = st_yields s /\
+  Forall2 (fun l v => hget (st_heap s1) l = Some v) ls vs /\
+  (forall l, (l < hnext (st_heap s))%positive -> hget (st_heap s1) l = hget (st_heap s) l).
+Proof. exact bind_payload_ok. Qed.
+Print Assumptions C15_bind_payload_ok.
+
+(* COMPLETE.  When binding succeeds: exactly when there are enough values and
+   each has the declared kind (num / string / bool). *)
+Theorem C15_payload_binds_iff_typed : forall ps args,
+  (exists vs, payload_vals ps args = PvOk vs) <->
+  ((List.length ps <= List.length args)%nat /\
+   Forall2 (fun p a => snd p = payload_ty a) ps (firstn (List.length ps) args)).
+Proof. exact payload_binds_iff_typed. Qed.
+Print Assumptions C15_payload_binds_iff_typed.
+
+(* COMPLETE.  The payload beyond the declared parameters is ignored. *)
+Theorem C15_bind_payload_firstn : forall ps args fr s,
+  bind_payload ps args fr s = bind_payload ps (firstn (List.length ps) args) fr s.
+Proof. exact bind_payload_firstn. Qed.
+Print Assumptions C15_bind_payload_firstn.
+
+Theorem C15_handle_event_extra_ignored : forall fuel P name args extra s h,
+  find_handler name (p_handlers P) = Some h ->
+  (List.length (h_params h) <= List.length args)%nat ->
+  handle_event fuel P name (args ++ extra) s = handle_event fuel P name args s.
+Proof. exact handle_event_extra_ignored. Qed.
+Print Assumptions C15_handle_event_extra_ignored.
+
+(* COMPLETE.  A handler declared without parameters ignores the whole payload. *)
+Theorem C15_handle_event_no_params : forall fuel P name args s h,
+  find_handler name (p_handlers P) = Some h -> h_params h = [] ->
+  handle_event fuel P name args s = event_outcome (exec_block fuel P [[]] (h_body h) s).
+Proof. exact handle_event_no_params. Qed.
+Print Assumptions C15_handle_event_no_params.
+
+(* COMPLETE.  "_" consumes (and converts) its value, allocates it, binds nothing. *)
+Theorem C15_bind_payload_underscore : forall t rest a more fr s,
+  bind_payload ((underscore, t) :: rest) (a :: more) fr s =
+  match payload_hval t a with
+  | Some v => bind_payload rest more fr (upd_heap (snd (halloc (st_heap s) v)) s)
+  | None => (Er (EPanic PkAnyConversion), s)
+  end.
+Proof. exact bind_payload_underscore. Qed.
+Print Assumptions C15_bind_payload_underscore.
+
+(* COMPLETE.  handler_locals_do_not_survive: handle_event takes and returns no
+   environment (by its type), and the frame each body starts in names nothing
+   but that handler's own named parameters. *)
+Theorem C15_handler_scope_is_fresh : forall ps ls n,
+  In n (map fst (bind_frame ps ls [])) -> In n (map fst ps) /\ n <> underscore.
+Proof. exact handler_scope_is_fresh. Qed.
+Print Assumptions C15_handler_scope_is_fresh.
+
+(* ---------------------------------------------------------------------- *)
+(* C1. sequences of events                                                 *)
+(* ---------------------------------------------------------------------- *)
+Theorem C15_handle_events_cons : forall fuel P e es s,
+  handle_events fuel P (e :: es) s =
+  let '(o, s1) := handle_event fuel P (fst e) (snd e) s in
+  let '(os, s2) := handle_events fuel P es s1 in (o :: os, s2).
+Proof. exact handle_events_cons. Qed.
+Print Assumptions C15_handle_events_cons.
+
+Theorem C15_handle_events_app : forall fuel P es1 es2 s,
+  handle_events fuel P (es1 ++ es2) s =
+  let '(os1, s1) := handle_events fuel P es1 s in
+  let '(os2, s2) := handle_events fuel P es2 s1 in (os1 ++ os2, s2).
+Proof. exact handle_events_app. Qed.
+Print Assumptions C15_handle_events_app.
+
+(* COMPLETE.  globals_persist: event i+1 starts in exactly the state (heap,
+   globals, trace, input, test counters) event i ended in, whatever its
+   outcome; every entry is one handle_event. *)
+Theorem C15_globals_persist : forall fuel P es s,
+  chained s (event_runs fuel P es s) (snd (handle_events fuel P es s)) /\
+  Forall2 (fun e r => handle_event fuel P (fst e) (snd e) (fst (fst r)) = (snd (fst r), snd r))
+          es (event_runs fuel P es s).
+Proof. exact globals_persist. Qed.
+Print Assumptions C15_globals_persist.
+
+(* COMPLETE.  This sequence is what the correspondence entry point sem_case
+   runs after the top-level code. *)
+Theorem C15_sem_case_events : forall p stop inp ff ay fuel evs P input events,
+  dec_program p = Some P -> dec_strs inp = Some input -> dec_list dec_event evs = Some events ->
+  sem_case (Lst [p; stop; Lst inp; Sym ff; Sym ay; Int fuel; Lst evs]) =
+  let stop_at := match stop with Int k => Some (Z.to_nat k) | _ => None end in
+  let fl := Z.to_nat fuel in
+  let s0 := init_state stop_at input (str_eqb ff sy_true) (str_eqb ay sy_true) in
+  let '(o, s1) := run_program fl P s0 in
+  Lst (enc_result o s1 0 :: map enc_run (event_runs fl P events s1)).
+Proof. exact sem_case_events. Qed.
+Print Assumptions C15_sem_case_events.
+
+(* ---------------------------------------------------------------------- *)
+(* C2. events and calls                                                    *)
+(* ---------------------------------------------------------------------- *)
+(* COMPLETE.  Binding call arguments: no allocation, no state change. *)
+Theorem C15_bind_params_exact : forall ps vals fr s,
+  bind_params ps vals fr s =
+  if Nat.leb (List.length ps) (List.length vals)
+  then (Ok (bind_frame ps vals fr, skipn (List.length ps) vals), s)
+  else (Er err_missing_arg, s).
+Proof. exact bind_params_exact. Qed.
+Print Assumptions C15_bind_params_exact.
+
+(* COMPLETE.  The user-function branch of evalFunccall. *)
+Theorem C15_eval_call_user_unfold : forall f P e name args fd s,
+  user_fn_name name -> find_func name (p_funcs P) = Some fd ->
+  eval_call (S f) P e name args s =
+  match eval_exprs f P e args s with
+  | (Ok vals, s') => call_user f P fd vals s'
+  | (Er er, s') => (Er er, s')
+  end.
+Proof. exact eval_call_user_unfold. Qed.
+Print Assumptions C15_eval_call_user_unfold.
+
+Theorem C15_call_user_unfold : forall f P fd vals s,
+  fn_variadic fd = None ->
+  call_user f P fd vals s =
+  if Nat.leb (List.length (fn_params fd)) (List.length vals)
+  then call_outcome (exec_block f P [bind_frame (fn_params fd) vals []] (fn_body fd) s)
+  else (Er err_missing_arg, s).
+Proof. exact call_user_unfold. Qed.
+Print Assumptions C15_call_user_unfold.
+
+(* COMPLETE (exact form of events-as-calls for one event).  Delivering an
+   event IS calling the twin procedure on fresh cells holding the payload
+   prefix: both run the same exec_block from the same environment and state;
+   outcomes agree and the final states are equal except for the HNone result
+   cell a call allocates when the body ends without `return`. *)
+Theorem C15_event_is_call_on_fresh_cells : forall fuel P name args s h fname fd vs,
+  find_handler name (p_handlers P) = Some h ->
+  find_func fname (p_funcs P) = Some fd ->
+  fn_params fd = h_params h -> fn_variadic fd = None -> fn_body fd = h_body h ->
+  payload_vals (h_params h) args = PvOk vs ->
+  let s1 := upd_heap (halloc_list (st_heap s) vs) s in
+  let ls := loc_seq (hnext (st_heap s)) (List.length vs) in
+  let fr := bind_frame (h_params h) ls [] in
+  handle_event fuel P name args s = event_outcome (exec_block fuel P [fr] (h_body h) s1) /\
+  call_user fuel P fd ls s1 = call_outcome (exec_block fuel P [fr] (h_body h) s1) /\
+  (let '(o, s') := handle_event fuel P name args s in
+   let '(r, s'') := call_user fuel P fd ls s1 in
+   o = outcome_of_call r /\
+   (s'' = s' \/ s'' = upd_heap (snd (halloc (st_heap s') HNone)) s')).
+Proof. exact event_is_call_on_fresh_cells. Qed.
+Print Assumptions C15_event_is_call_on_fresh_cells.
+
+(* PARTIAL (events_as_calls for arbitrary argument cells).  With argument cells
+   [vals] that merely HOLD the payload values (in any state s'), event and call
+   reduce to one exec_block of the same body from frames with the same names
+   in the same order whose cells hold equal values; the event has only added
+   fresh cells.
+   Missing for [events_as_calls_full]: invariance of the nine evaluator
+   functions and of every builtin under a renaming of cells (heap isomorphism
+   on the part reachable from globals and the frame), under unreachable garbage
+   cells and under the yield count. *)
+Theorem C15_events_as_calls_partial : forall fuel P name args s s' h fname fd vals fr1 s1,
+  find_handler name (p_handlers P) = Some h ->
+  find_func fname (p_funcs P) = Some fd ->
+  fn_params fd = h_params h -> fn_variadic fd = None -> fn_body fd = h_body h ->
+  bind_payload (h_params h) args [] s = (Ok fr1, s1) ->
+  Forall2 (holds (st_heap s')) vals args ->
+  let fr2 := bind_frame (h_params h) vals [] in
+  handle_event fuel P name args s = event_outcome (exec_block fuel P [fr1] (h_body h) s1) /\
+  call_user fuel P fd vals s' = call_outcome (exec_block fuel P [fr2] (h_body h) s') /\
+  frame_sim (same_value (st_heap s1) (st_heap s')) fr1 fr2 /\
+  st_globals s1 = st_globals s /\ st_trace s1 = st_trace s /\ st_yields s1 = st_yields s /\
+  (forall l, (l < hnext (st_heap s))%positive -> hget (st_heap s1) l = hget (st_heap s) l).
+Proof. exact events_as_calls_partial. Qed.
+Print Assumptions C15_events_as_calls_partial.
+
+Theorem C15_event_and_call_frames : forall ps args vals s s' fr1 s1,
+  bind_payload ps args [] s = (Ok fr1, s1) ->
+  Forall2 (holds (st_heap s')) vals args ->
+  exists fr2,
+    bind_params ps vals [] s' = (Ok (fr2, skipn (List.length ps) vals), s') /\
+    fr1 = bind_frame ps (loc_seq (hnext (st_heap s)) (List.length ps)) [] /\
+    fr2 = bind_frame ps vals [] /\
+    frame_sim (same_value (st_heap s1) (st_heap s')) fr1 fr2 /\
+    map fst fr1 = map fst fr2 /\
+    (forall n l1, frame_get n fr1 = Some l1 ->
+       exists l2 v, frame_get n fr2 = Some l2 /\ hget (st_heap s1) l1 = Some v /\ hget (st_heap s') l2 = Some v) /\
+    st_globals s1 = st_globals s /\ st_trace s1 = st_trace s /\ st_yields s1 = st_yields s /\
+    (forall l, (l < hnext (st_heap s))%positive -> hget (st_heap s1) l = hget (st_heap s) l).
+Proof. exact event_and_call_frames. Qed.
+Print Assumptions C15_event_and_call_frames.
+
+(* COMPLETE.  Evaluating literal arguments (no stop pending, enough fuel): per
+   argument one yield, the literal's cell and its copy; the copies are the
+   argument cells. *)
+Theorem C15_eval_exprs_literals : forall P e args f s,
+  tick_ok s -> (List.length args < f)%nat ->
+  eval_exprs f P e (map payload_expr args) s = (Ok (fst (lit_run args s)), snd (lit_run args s)).
+Proof. exact eval_exprs_literals. Qed.
+Print Assumptions C15_eval_exprs_literals.
+
+(* PARTIAL (same gap as above), with the call as evy source writes it:
+   `fname lit1 lit2 ...` against the event with payload lit1 lit2 ... *)
+Theorem C15_event_vs_literal_call : forall fuel P e name args s h fname fd vs,
+  find_handler name (p_handlers P) = Some h ->
+  user_fn_name fname -> find_func fname (p_funcs P) = Some fd ->
+  fn_params fd = h_params h -> fn_variadic fd = None -> fn_body fd = h_body h ->
+  payload_vals (h_params h) args = PvOk vs ->
+  tick_ok s -> (List.length args < fuel)%nat ->
+  let s1 := upd_heap (halloc_list (st_heap s) vs) s in
+  let fr1 := bind_frame (h_params h) (loc_seq (hnext (st_heap s)) (List.length vs)) [] in
+  let vals := fst (lit_run args s) in
+  let s2 := snd (lit_run args s) in
+  let fr2 := bind_frame (h_params h) vals [] in
+  handle_event fuel P name args s = event_outcome (exec_block fuel P [fr1] (h_body h) s1) /\
+  eval_call (S fuel) P e fname (map payload_expr args) s = call_outcome (exec_block fuel P [fr2] (h_body h) s2) /\
+  frame_sim (same_value (st_heap s1) (st_heap s2)) fr1 fr2 /\
+  st_globals s1 = st_globals s2 /\ st_trace s1 = st_trace s2 /\
+  st_yields s2 = (st_yields s1 + List.length args)%nat /\
+  (forall l, (l < hnext (st_heap s))%positive -> hget (st_heap s1) l = hget (st_heap s2) l).
+Proof. exact event_vs_literal_call. Qed.
+Print Assumptions C15_event_vs_literal_call.
+
+(* COMPLETE.  Sequences: every event of every sequence is, from the state the
+   previous event left, a call of its twin procedure on fresh cells holding the
+   payload: same outcome, same final state up to the HNone result cell. *)
+Theorem C15_event_runs_are_calls : forall fuel P pn es s,
+  procs_mirror_handlers P pn ->
+  (forall e, In e es -> exists h vs, find_handler (fst e) (p_handlers P) = Some h /\
+                                     payload_vals (h_params h) (snd e) = PvOk vs) ->
+  Forall2 (run_is_call fuel P pn) es (event_runs fuel P es s).
+Proof. exact event_runs_are_calls. Qed.
+Print Assumptions C15_event_runs_are_calls.
+
+(* The full statement, NOT proved: SemEvents.events_as_calls_full *)
+Definition C15_events_as_calls_full : Prop := events_as_calls_full.
+
+(* ---------------------------------------------------------------------- *)
+(* Examples (non-vacuity), by computation                                  *)
+(* ---------------------------------------------------------------------- *)
+Definition P3 (s : string) : piece := PStr (s_ s).
+
+(* a global updated by one event is read by the next: prints 1 then 2
+   (the trace is newest first); the third payload value of the second event is
+   ignored *)
+Example C15_ex_globals_persist :
+  let es := [(s_ "down", [PvNum 3%float; PvNum 4%float]);
+             (s_ "down", [PvNum 5%float; PvNum 6%float; PvStr (s_ "extra")])] in
+  fst (run_program 100 ex_counter ex_s0) = ODone /\
+  (let '(os, s2) := handle_events 100 ex_counter es (ex_after ex_counter) in
+   os = [ODone; ODone] /\
+   st_trace s2 = [EvPrint [P3 "2"; P3 " "; P3 "5"; P3 " "; P3 "6"; nl];
+                  EvPrint [P3 "1"; P3 " "; P3 "3"; P3 " "; P3 "4"; nl]]).
+Proof. vm_compute. repeat split; reflexivity. Qed.
+
+(* locals and parameters of one event are not visible in the next; "_" binds
+   nothing but its value is converted; short payload; `return` is ignored; no
+   handler *)
+Example C15_ex_locals_do_not_survive :
+  let es := [(s_ "down", [PvNum 1%float]);                 (* t := 7  print t x  -> "7 1" *)
+             (s_ "up", [PvNum 1%float]);                   (* print t            -> not set; payload ignored *)
+             (s_ "key", [PvStr (s_ "a")]);                 (* print x            -> not set *)
+             (s_ "move", [PvNum 1%float; PvNum 2%float]);  (* on move _:num y:num  print y -> "2" *)
+             (s_ "move", [PvStr []; PvNum 2%float]);       (* the "_" value has the wrong kind *)
+             (s_ "move", [PvNum 2%float]);                 (* too short *)
+             (s_ "input", [PvStr []]);                     (* return *)
+             (s_ "nosuch", [])] in
+  let '(os, s2) := handle_events 100 ex_locals es (ex_after ex_locals) in
+  os = [ODone; OErr (EPanic PkVarNotSet); OErr (EPanic PkVarNotSet); ODone;
+        OErr (EPanic PkAnyConversion); OErr err_missing_payload; ODone; OErr err_no_handler] /\
+  st_trace s2 = [EvPrint [P3 "2"; nl]; EvPrint [P3 "7"; P3 " "; P3 "1"; nl]] /\
+  st_globals s2 = st_globals ex_s0.
+Proof. vm_compute. repeat split; reflexivity. Qed.
+
+(* instance of the hypotheses of C15_handle_event_extra_ignored / _no_params *)
+Example C15_ex_extra_ignored_hyps :
+  exists h, find_handler (s_ "down") (p_handlers ex_counter) = Some h /\
+            (List.length (h_params h) <= List.length [PvNum 3%float; PvNum 4%float])%nat.
+Proof. eexists; split; [reflexivity | vm_compute; repeat constructor]. Qed.
+
+Example C15_ex_no_params_hyps :
+  exists h, find_handler (s_ "up") (p_handlers ex_locals) = Some h /\ h_params h = [].
+Proof. eexists; split; reflexivity. Qed.
+
+(* instance of C15_payload_binds_iff_typed and of the fresh consecutive cells *)
+Example C15_ex_bind_payload :
+  let s := ex_after ex_twin in
+  payload_vals ex_twin_params [PvNum 3%float; PvStr (s_ "a"); PvBool true] = PvOk [HNum 3%float; HStr (s_ "a")] /\
+  hnext (st_heap s) = 6%positive /\
+  (exists s1, bind_payload ex_twin_params [PvNum 3%float; PvStr (s_ "a"); PvBool true] [] s
+              = (Ok [(s_ "s", 7%positive); (s_ "x", 6%positive)], s1) /\
+              hget (st_heap s1) 6%positive = Some (HNum 3%float) /\
+              hget (st_heap s1) 7%positive = Some (HStr (s_ "a")) /\
+              hnext (st_heap s1) = 8%positive).
+Proof. vm_compute. repeat split; try reflexivity. eexists; repeat split; reflexivity. Qed.
+
+(* instance of the hypotheses of C15_event_is_call_on_fresh_cells and
+   C15_events_as_calls_partial: handler `down` and its twin procedure `down_` *)
+Example C15_ex_twin_hyps :
+  user_fn_name (s_ "down_") /\
+  find_handler (s_ "down") (p_handlers ex_twin) = Some ex_twin_h /\
+  find_func (s_ "down_") (p_funcs ex_twin) = Some ex_twin_fd /\
+  fn_params ex_twin_fd = h_params ex_twin_h /\ fn_variadic ex_twin_fd = None /\
+  fn_body ex_twin_fd = h_body ex_twin_h /\
+  payload_vals (h_params ex_twin_h) [PvNum 3%float; PvStr (s_ "a")] = PvOk [HNum 3%float; HStr (s_ "a")] /\
+  (* argument cells 1 (err: a bool) do not hold the payload, cells allocated for it do *)
+  (let s := upd_heap (halloc_list (st_heap (ex_after ex_twin)) [HStr (s_ "a"); HNum 3%float]) (ex_after ex_twin) in
+   Forall2 (holds (st_heap s)) [7%positive; 6%positive] [PvNum 3%float; PvStr (s_ "a")] /\
+   exists fr1 s1, bind_payload (h_params ex_twin_h) [PvNum 3%float; PvStr (s_ "a")] [] s = (Ok fr1, s1)).
+Proof.
+  vm_compute. repeat split; try reflexivity.
+  - repeat constructor.
+  - do 2 eexists; reflexivity.
+Qed.
+
+(* an instance of events_as_calls_full, by computation: two events against the
+   two calls `down_ 3 "a"`, `down_ 5 "b"`: same outcomes, traces and global
+   dumps; the yield counts differ (argument evaluation yields) *)
+Example C15_ex_events_as_calls :
+  let es := [(s_ "down", [PvNum 3%float; PvStr (s_ "a")]);
+             (s_ "down", [PvNum 5%float; PvStr (s_ "b"); PvBool true])] in
+  let pn := fun n : str => n ++ s_ "_" in
+  let '(os1, s1) := handle_events 100 ex_twin es (ex_after ex_twin) in
+  let '(os2, s2) := call_events 100 ex_twin pn es (ex_after ex_twin) in
+  os1 = [ODone; ODone] /\ os1 = os2 /\ same_observables s1 s2 /\
+  st_trace s1 = [EvPrint [P3 "2"; P3 " "; P3 "5"; P3 " "; P3 "b"; nl];
+                 EvPrint [P3 "1"; P3 " "; P3 "3"; P3 " "; P3 "a"; nl]] /\
+  st_yields s1 = 21%nat /\ st_yields s2 = 25%nat.
+Proof. vm_compute. repeat split; reflexivity. Qed.
+
+(* instance of the hypotheses of C15_event_vs_literal_call /
+   C15_event_runs_are_calls *)
+Example C15_ex_literal_call_hyps :
+  tick_ok (ex_after ex_twin) /\
+  procs_mirror_handlers ex_twin (fun n : str => n ++ s_ "_") /\
+  (forall e, In e [(s_ "down", [PvNum 3%float; PvStr (s_ "a")]);
+                   (s_ "down", [PvNum 5%float; PvStr (s_ "b"); PvBool true])] ->
+     exists h vs, find_handler (fst e) (p_handlers ex_twin) = Some h /\
+                  payload_vals (h_params h) (snd e) = PvOk vs).
+Proof.
+  split; [split; reflexivity|]. split.
+  - intros h [<-|[]]. split; [vm_compute; repeat split|].
+    exists ex_twin_fd. repeat split; reflexivity.
+  - intros e [<-|[<-|[]]]; do 2 eexists; split; reflexivity.
+Qed.
+
+(* differences between events and calls *)
+Example C15_ex_missing_value_errors_differ : err_missing_payload <> err_missing_arg.
+Proof. exact missing_payload_vs_missing_arg. Qed.
+
+(* a call does not check kinds: the procedure runs with x bound to a string *)
+Example C15_ex_call_does_not_check_kinds :
+  let s := ex_after ex_twin in
+  fst (handle_event 100 ex_twin (s_ "down") [PvStr (s_ "a"); PvStr (s_ "b")] s) = OErr (EPanic PkAnyConversion) /\
+  (exists l, fst (eval_call 100 ex_twin [] (s_ "down_") [EStr (s_ "a"); EStr (s_ "b")] s) = Ok (Some l)).
+Proof. vm_compute. split; [reflexivity | eexists; reflexivity]. Qed.
+
+(* MODEL vs GO (reported): Go's HandleEvent checks the payload length before
+   converting anything and would panic "not enough arguments" here *)
+Example C15_ex_short_payload_wrong_kind :
+  fst (handle_event 100 ex_counter (s_ "down") [PvStr (s_ "a")] (ex_after ex_counter))
+  = OErr (EPanic PkAnyConversion).
+Proof. vm_compute. reflexivity. Qed.
+
+(* a repeated parameter name: the later binding replaces (both for events and
+   for calls, through bind_frame); "_" binds nothing *)
+Example C15_ex_duplicate_and_underscore :
+  bind_frame [(s_ "x", TNum); (underscore, TNum); (s_ "x", TNum); (s_ "y", TStr)]
+             [10%positive; 11%positive; 12%positive; 13%positive; 14%positive] []
+  = [(s_ "y", 13%positive); (s_ "x", 12%positive)].
+Proof. vm_compute. reflexivity. Qed.
